@@ -791,7 +791,7 @@ impl Property for C13 {
         run_case(case)
     }
     fn rule(&self) -> String {
-        "two generated engines. Schedules: AimdController / Aimd / Vegas with min <= max in 0-6, initial 0-9 (also outside the bounds), increase 1-5, factor 0-1, alpha/beta 0-6 (Vegas pre-warmed with 0-12 samples), 2-3 logical threads x 1-6 feedback operations (success with zero / below-threshold / above-threshold / huge latency, failure) under a generated schedule of their atomic steps; after every atomic step min <= limit() <= max. Simulator: AdaptiveService (AIMD or Vegas, limit 1-4 within [min,max]) with 2-10/20 callers on clones (arrival, latency, ok/error/panic/never, cancellation, poll order): at every poll_ready made by a caller and at every quiescent instant in_flight() equals the scripted service's own in-flight count, Pending only if in-flight >= limit, Ready only if in-flight < limit, limit within bounds; after dropping everything in_flight() is 0 and readiness is granted. Non-trivial: schedule with a preemption between atomic steps of limit updates; simulator case in which an in-flight call is dropped or panics; distinct by hash of the case".into()
+        "three generated engines. Threads: clones of one AdaptiveService (Aimd or Vegas, limit 8 in [1,16]) used from 2-3 logical threads x 1-3 operations (call and complete / hold a never-completing call / drop unpolled / drop after one poll / failing call) under a generated schedule of the instrumented atomic steps of readiness check, admission and release; at quiescence in_flight() = calls still alive, and 0 after dropping those. Schedules: AimdController / Aimd / Vegas with min <= max in 0-6, initial 0-9 (also outside the bounds), increase 1-5, factor 0-1, alpha/beta 0-6 (Vegas pre-warmed with 0-12 samples), 2-3 logical threads x 1-6 feedback operations (success with zero / below-threshold / above-threshold / huge latency, failure) under a generated schedule of their atomic steps; after every atomic step min <= limit() <= max. Simulator: AdaptiveService (AIMD or Vegas, limit 1-4 within [min,max]) with 2-10/20 callers on clones (arrival, latency, ok/error/panic/never, cancellation, poll order): at every poll_ready made by a caller and at every quiescent instant in_flight() equals the scripted service's own in-flight count, Pending only if in-flight >= limit, Ready only if in-flight < limit, limit within bounds; after dropping everything in_flight() is 0 and readiness is granted. Non-trivial: schedule with a preemption between atomic steps of limit updates; simulator case in which an in-flight call is dropped or panics; distinct by hash of the case".into()
     }
     fn assumptions(&self) -> Vec<String> {
         vec![
